@@ -234,7 +234,8 @@ class SText:
             ok.append(z3.Not(z3.InRe(mid, z3.Concat(anyc, W))))
         for o in ok:
             c.add(o)
-        return SText(mid, self.kind)
+        # note = provenance of the trimmed text: source == left ++ result ++ right with left/right in W*
+        return SText(mid, self.kind, note=("strip", self, lft, rgt))
 
     def strip(self, chars=None):
         return self._strip(chars, True, True)
@@ -246,41 +247,82 @@ class SText:
         return self._strip(chars, False, True)
 
     def split(self, sep=None, maxsplit=-1):
-        if sep is None or maxsplit != 1:
-            raise Unsupported("split other than split(sep, 1)")
+        if sep is None or maxsplit < 1 or maxsplit > 4:
+            raise Unsupported("split other than split(sep, k) with 1 <= k <= 4")
         sp = self._same(sep)
         c = ctx()
-        if c.branch(z3.Contains(self.t, sp.t), "split.has_sep"):
-            i = z3.IndexOf(self.t, sp.t, 0)
-            a = z3.SubString(self.t, 0, i)
-            b = z3.SubString(self.t, i + z3.Length(sp.t), z3.Length(self.t) - i - z3.Length(sp.t))
-            return [SText(a, self.kind), SText(b, self.kind)]
-        return [self]
+        out = []
+        cur = self.t
+        for _ in range(maxsplit):
+            if not c.branch(z3.Contains(cur, sp.t), "split.has_sep"):
+                break
+            a, b = self._cut_first(cur, sp)
+            out.append(SText(a, self.kind))
+            cur = b
+        out.append(SText(cur, self.kind))
+        return out
+
+    def _cut_first(self, cur, sp):
+        """cur == a ++ sep ++ b with the FIRST occurrence of sep (word equation with fresh a, b)"""
+        c = ctx()
+        nm = c.fresh_name("cut")
+        a, b = z3.String(nm + ".a"), z3.String(nm + ".b")
+        c.add(cur == z3.Concat(a, sp.t, b))
+        if z3.is_string_value(sp.t) and len(sp.t.as_string()) == 1:
+            c.add(z3.Not(z3.Contains(a, sp.t)))
+        else:
+            c.add(z3.IndexOf(cur, sp.t, 0) == z3.Length(a))
+        return a, b
 
     def partition(self, sep):
         sp = self._same(sep)
         c = ctx()
         if c.branch(z3.Contains(self.t, sp.t), "partition.has_sep"):
-            i = z3.IndexOf(self.t, sp.t, 0)
-            a = z3.SubString(self.t, 0, i)
-            b = z3.SubString(self.t, i + z3.Length(sp.t), z3.Length(self.t) - i - z3.Length(sp.t))
+            a, b = self._cut_first(self.t, sp)
             return SText(a, self.kind), sep, SText(b, self.kind)
         return self, type(sep)(), type(sep)()
 
-    def _case(self, upper):
-        stubs.used("str.lower/upper on ASCII letters (other characters: unchanged is ASSUMED only for ASCII-only text)")
-        # modelled as an uninterpreted function with the facts needed for comparisons against ASCII constants
-        f = z3.Function("upper" if upper else "lower", S, S)
-        return SText(f(self.t), self.kind, note=("case", upper, self))
-
     def lower(self):
-        return self._case(False)
+        return SCase(self, False)
 
     def upper(self):
-        return self._case(True)
+        return SCase(self, True)
+
+    def isascii(self):
+        return mk_bool(z3.InRe(self.t, z3.Star(RL.ranges_to_re([(0, 127)]))))
 
     def isdigit(self):
         raise Unsupported("isdigit on symbolic text")
+
+    def sym_int(self, base=10):
+        """int(text): ValueError unless the text is a (possibly signed / padded) numeral.  Modelled exactly for
+        texts already known to consist of ASCII digits only (the callers gate with a regex first)."""
+        c = ctx()
+        if base == 10:
+            digits = z3.Plus(RL.rng(48, 57))
+            w = getattr(self, "fixed_digits", None)
+            if w is None and not any(_lang_subset(p, "digits") for p in getattr(self, "matched", ())):
+                if c._check(z3.Not(z3.InRe(self.t, digits))) != z3.unsat:
+                    raise Unsupported("int() of text that is not provably ASCII digits on this path")
+            stubs.used("int(str of ASCII digits) = its decimal value; ValueError above CPython's 4300-digit limit")
+            if w == 1:
+                return mk_int(z3.StrToCode(self.t) - 48)
+            if w is None and c.branch(z3.Length(self.t) > 4300, "int.too_many_digits"):
+                raise ValueError("Exceeds the limit (4300 digits) for integer string conversion")
+            return mk_int(z3.StrToInt(self.t))
+        if base == 16:
+            hexd = z3.Plus(RL.ranges_to_re([(48, 57), (65, 70), (97, 102)]))
+            if not any(_lang_subset(p, "hex") for p in getattr(self, "matched", ())):
+                if c._check(z3.Not(z3.InRe(self.t, hexd))) != z3.unsat:
+                    raise Unsupported("int(x, 16) of text that is not provably hex digits on this path")
+            stubs.used("int(hex digits, 16): a non-negative integer determined by the digits (value uninterpreted, "
+                       "zero iff all digits are '0')")
+            f = z3.Function("hexval", S, z3.IntSort())
+            v = f(self.t)
+            c.add(v >= 0)
+            c.add((v == 0) == z3.InRe(self.t, z3.Plus(RL.rng(48, 48))))
+            return mk_int(v)
+        raise Unsupported(f"int(text, {base})")
 
     def concretize(self, m):
         r = m.eval(self.t, model_completion=True)
@@ -288,17 +330,235 @@ class SText:
         return s.encode("latin-1", "replace") if self.kind is bytes else s
 
 
-class SMatch:
-    """truthy result of a successful regex call (groups are not modelled)"""
+_SUBSET_CACHE: dict = {}
 
-    def __init__(self, pattern, subject):
-        self.pattern, self.subject = pattern, subject
+
+def _lang_subset(pat, which):
+    """is the fullmatch language of the live pattern a subset of ASCII digits+ / hexdigits+ (cached, decided by z3)"""
+    key = (pat.pattern, pat.flags, which)
+    if key not in _SUBSET_CACHE:
+        target = z3.Plus(RL.rng(48, 57)) if which == "digits" else z3.Plus(RL.ranges_to_re([(48, 57), (65, 70), (97, 102)]))
+        _SUBSET_CACHE[key] = RL.subset(RL.lang(pat, "fullmatch"), target)[0] == "subset"
+    return _SUBSET_CACHE[key]
+
+
+_CASE_TABLES: dict = {}
+
+
+def _case_tables(upper):
+    """exact pre-images of str.upper / str.lower over all code points z3 can represent:
+    single[c] = chars x with f(x) == c ; multi[s] = chars x with f(x) == s (len(s) > 1)"""
+    if upper not in _CASE_TABLES:
+        single, multi = {}, {}
+        for cp in range(RL.MAXCHAR + 1):
+            if 0xD800 <= cp <= 0xDFFF:
+                y = chr(cp)
+            else:
+                ch = chr(cp)
+                y = ch.upper() if upper else ch.lower()
+            if len(y) == 1:
+                single.setdefault(y, []).append(cp)
+            else:
+                multi.setdefault(y, []).append(cp)
+        _CASE_TABLES[upper] = (single, multi)
+    return _CASE_TABLES[upper]
+
+
+def case_preimage(const: str, upper: bool):
+    """regex for { s : s.upper() == const } (resp. lower), exact (dynamic programming over single- and multi-char
+    images)"""
+    single, multi = _case_tables(upper)
+    n = len(const)
+    memo = {n: z3.Re(z3.StringVal(""))}
+    for i in range(n - 1, -1, -1):
+        alts = []
+        pre = single.get(const[i])
+        if pre:
+            alts.append(z3.Concat(RL.ranges_to_re([(p, p) for p in pre]), memo[i + 1]))
+        for img, cps in multi.items():
+            if const.startswith(img, i):
+                alts.append(z3.Concat(RL.ranges_to_re([(p, p) for p in cps]), memo[i + len(img)]))
+        memo[i] = RL.union(alts) if alts else z3.Empty(RL.RS)
+    return memo[0]
+
+
+class SCase:
+    """s.lower() / s.upper(): comparisons against constants are decided exactly through the pre-image language"""
+
+    _pyvc_sym = True
+
+    def __init__(self, base: SText, upper: bool):
+        self.base, self.is_upper = base, upper
+        stubs.used("str.lower()/upper(): exact pre-image languages computed from CPython's own case tables")
+
+    def __eq__(self, o):
+        if isinstance(o, str):
+            return mk_bool(z3.InRe(self.base.t, case_preimage(o, self.is_upper)))
+        if isinstance(o, (bytes, bytearray)) and self.base.kind is bytes:
+            return mk_bool(z3.InRe(self.base.t, case_preimage(bytes(o).decode("latin-1"), self.is_upper)))
+        raise Unsupported("comparison of a case-folded symbolic text with a non-constant")
+
+    def __ne__(self, o):
+        return Not(self.__eq__(o))
+
+    def __hash__(self):
+        return id(self)
+
+    def sym_str(self):
+        return self
+
+    def sym_type(self):
+        return self.base.kind
+
+    def sym_isinstance(self, ts):
+        return any(t is self.base.kind or t is object for t in ts)
+
+    def __format__(self, spec):
+        from .values import register_fmt
+
+        return register_fmt(self, spec)
+
+    def concretize(self, m):
+        v = self.base.concretize(m)
+        return v.upper() if self.is_upper else v.lower()
+
+
+def _fixed_width_groups(pat):
+    """for patterns made of fixed-width items: {group index: (offset, width)}"""
+    tr = RL.Translator(pat)
+    off = 0
+    groups = {}
+
+    def width(op, av):
+        name = str(op)
+        if op in (RL.sre_c.LITERAL, RL.sre_c.NOT_LITERAL, RL.sre_c.ANY, RL.sre_c.IN, RL.sre_c.CATEGORY):
+            return 1
+        if op is RL.sre_c.SUBPATTERN:
+            return sum(width(o, a) for o, a in av[-1])
+        if op in (RL.sre_c.MAX_REPEAT, RL.sre_c.MIN_REPEAT):
+            lo, hi, p = av
+            if lo != hi:
+                raise Unsupported("group offsets of a variable-width pattern")
+            return lo * sum(width(o, a) for o, a in p)
+        if op is RL.sre_c.AT:
+            return 0
+        raise Unsupported(f"group offsets: construct {name}")
+
+    def walk(items):
+        nonlocal off
+        for op, av in items:
+            if op is RL.sre_c.SUBPATTERN:
+                gi = av[0]
+                start = off
+                walk(av[-1])
+                if gi is not None:
+                    groups[gi] = (start, off - start)
+            else:
+                off += width(op, av)
+
+    walk(list(tr.tree))
+    return groups
+
+
+class SMatch:
+    """truthy result of a successful regex call; group(i) for fixed-width patterns"""
+
+    def __init__(self, pattern, subject, mode="fullmatch"):
+        self.pattern, self.subject, self.mode = pattern, subject, mode
 
     def __bool__(self):
         return True
 
-    def group(self, *a):
-        raise Unsupported("match.group on a symbolic match")
+    def group(self, i=0):
+        if i == 0 and self.mode == "fullmatch":
+            return self.subject
+        if self.mode not in ("fullmatch", "match"):
+            raise Unsupported("match.group after search")
+        # decompose the subject along the fixed-width items of the pattern: subject == piece_0 ++ piece_1 ++ ...
+        # with one fresh variable per group, each constrained by its own sub-language
+        pieces = getattr(self, "_pieces", None)
+        if pieces is None:
+            pieces = self._pieces = self._decompose()
+        return pieces[i]
+
+    def _decompose(self):
+        c = ctx()
+        tr = RL.Translator(self.pattern)
+        parts = []
+        groups = {}
+
+        def walk(items):
+            for op, av in items:
+                if op is RL.sre_c.SUBPATTERN and av[0] is not None:
+                    nm = c.fresh_name(f"group{av[0]}")
+                    g = z3.String(nm)
+                    sub = tr.seq(av[-1])
+                    c.add(z3.InRe(g, sub))
+                    st = SText(g, self.subject.kind)
+                    widths = _fixed_width_groups(self.pattern)
+                    if RL.subset(sub, z3.Plus(RL.rng(48, 57)))[0] == "subset":
+                        st.fixed_digits = widths[av[0]][1]
+                    groups[av[0]] = st
+                    parts.append(g)
+                elif op is RL.sre_c.AT:
+                    continue
+                else:
+                    nm = c.fresh_name("piece")
+                    p = z3.String(nm)
+                    c.add(z3.InRe(p, tr.item(op, av)))
+                    parts.append(p)
+
+        walk(list(tr.tree))
+        c.add(self.subject.t == (z3.Concat(*parts) if len(parts) > 1 else parts[0]))
+        return groups
+
+
+class TextArray:
+    """list[bytes|str] of symbolic length: z3 Array Int -> String (used for `lines`)"""
+
+    _pyvc_sym = True
+
+    def __init__(self, name, kind=bytes):
+        c = ctx()
+        self.name = c.fresh_name(name)
+        self.arr = z3.Array(self.name + ".arr", z3.IntSort(), S)
+        self.n = z3.Int(self.name + ".len")
+        self.kind = kind
+        c.add(self.n >= 0)
+        c.inputs[self.name] = self
+
+    def sym_len(self):
+        return mk_int(self.n)
+
+    def sym_getitem(self, i):
+        if isinstance(i, slice):
+            raise Unsupported("slice of a symbolic list of texts")
+        c = ctx()
+        ti = tint(i)
+        if c.branch(ti < 0, "list.negidx"):
+            ti = ti + self.n
+        if not c.branch(z3.And(ti >= 0, ti < self.n), "list.idx_in_range"):
+            raise IndexError("list index out of range")
+        return self._elem(ti)
+
+    def _elem(self, ti):
+        e = z3.Select(self.arr, ti)
+        if self.kind is bytes:
+            ctx().add(z3.InRe(e, z3.Star(RL.ranges_to_re([(0, 255)]))))
+        return SText(e, self.kind)
+
+    def at(self, i):
+        return self._elem(tint(i))
+
+    def __bool__(self):
+        return ctx().branch(self.n != 0, "list.nonempty")
+
+    def concretize(self, m):
+        n = m.eval(self.n, model_completion=True).as_long()
+        out = []
+        for j in range(min(n, 50)):
+            out.append(SText(z3.Select(self.arr, z3.IntVal(j)), self.kind).concretize(m))
+        return out
 
 
 def regex_call(pat, name, args, kw):
@@ -311,7 +571,13 @@ def regex_call(pat, name, args, kw):
         raise Unsupported("regex on non-text proxy")
     lang = RL.lang(pat, name)
     if ctx().branch(z3.InRe(x.t, lang), f"re.{name}({pat.pattern!r:.30})"):
-        return SMatch(pat, x)
+        if name == "fullmatch":
+            if not hasattr(x, "matched"):
+                x.matched = []
+            x.matched.append(pat)
+        return SMatch(pat, x, name)
+    # redundant positive form of the negative fact (helps the sequence solver)
+    ctx().add(z3.InRe(x.t, z3.Complement(lang)))
     return None
 
 
